@@ -336,6 +336,49 @@ AREAS["C09"] = {'area': 'c09',
                  "a bearer token is valid iff it was issued by this instance's key with HS256, a string jti and an exp in the future; tokens without "
                  'exp or with a non-string jti are not generated']}
 
+AREAS["C15"] = {'area': 'c15',
+ 'id': 15,
+ 'coq': ['Base', 'Export', 'Store/Model.v', 'Store/Check.v', 'Store/ProofsRows.v', 'Properties/C15.v'],
+ 'rule': 'seeded generator: per case two fresh instances A and B (embedded NATS server + store.NewStore on a temp SQLite file each) with scaffolding '
+         'groups, and on A one tree built through client.SendNode / MirrorNode / DeleteNode: depth <= 4, fan-out <= 4, eight node types, a tag point '
+         'unique per node, description with key "" or "0", 0-4 points over keys ""/0/1/2/10/k/name/a.b, arrays with keys 0..n, tombstoned points '
+         '(tombstone 1 and 2), data blobs, origins, extra edge points (role, sort), children deleted / deleted and restored (tombstone value 2) / '
+         'with an explicit tombstone 0, 0-2 mirrors inside the tree and of the top node outside it, nodeID points referring into the tree, to '
+         'scaffolding, to nothing, or empty. Text comes from a safe alphabet; at most one item per tree comes from the YAML-significant corpus (115 '
+         'scalars: indicators, quotes, CR/LF/tab, NEL, BOM, NBSP, LS/PS, control characters, CJK, emoji, number / bool / null / date look-alikes, '
+         'flow and block indicators, very long text; used as point text, point key or node description), from the 18 listed values (single-digit '
+         'mantissa with exponent, +-Inf, 2^53, max float ...), or from 23 odd node ids (NATS tokens that look like YAML non-strings). Every corpus '
+         'scalar, value and odd id is used once per run in a small probe tree; 110 x scale random trees, half of them from the safe alphabet only. '
+         'Experiments per tree: ExportNodes on A then ImportNodes with new ids and with preserved ids onto B (under a group, a nested group, the '
+         'root node, or as replacement of the root), with new ids onto A (other parent, same parent, or a node inside the exported subtree), with '
+         'preserved ids onto A (same parent or another parent). A case is non-trivial when the exported node has children; distinct by SHA-1 of '
+         '(nodes, mirrors, experiments)',
+ 'trusted': ['model of ExportNodes / exportNodesHelper / ImportNodes / checkIDs / ReplaceIDs / SendNode: coq/theories/Export/Model.v (hand-written, '
+             "tied by this run's correspondence: the YAML decoded by the library must equal the model's export, the import's error class, the root "
+             "id and the dump of every edge of the target instance afterwards (all fields but time and hash) must equal the model's store, and the "
+             "GetNodes walk of the imported subtree must equal the model's walk)",
+             "the write handlers without the hash column (x_node_points, x_edge_points in Export/Model.v) are copies of Store/Model.v's node_points "
+             '/ edge_points, compared with the real store through the dumps',
+             'the harness replaces the random source of github.com/google/uuid (uuid.SetRand) by a recorded seeded stream during ImportNodes to '
+             'learn the identifiers ReplaceIDs generated, in order'],
+ 'level': 'proof',
+ 'level_text': 'proof (partial): Coq theorems about the executable model under the hypothesis unyaml (yaml t) = Some t: C15_deleted_not_exported, '
+               'C15_export_faithful, C15_replace_ids_consistent (any tree, mirrors and cross references), C15_marker_top_only are complete; '
+               "C15_roundtrip_preserve_partial and C15_roundtrip_rename_partial (export, import, walk back, projection equal to the source's with "
+               'marker / injective renaming / new parent) are proved for subtrees without a mirror inside, imported under a parent other than root '
+               'into a store that knows none of the identifiers. The model is run against two real instances on >250 trees x 1-5 experiments per run '
+               'and must agree on every dump; the round-trip specification is evaluated on the observed trees, so the YAML layer is tested directly',
+ 'level_note': 'trusted: Coq kernel, extraction, OCaml driver, Go harness; assumed in the theorems: the YAML round trip (false of goccy/go-yaml '
+               'v1.11.2 for the scalars and values listed as known findings, each keyed by its exact bytes / bit pattern and re-established on every '
+               'run by asking the library directly); modelled not verified: SQLite, NATS, protobuf, time.Now (import times are taken to be later '
+               'than stored times); mirrors inside the tree, imports onto existing identifiers and replacement of the root node are covered by '
+               'correspondence only',
+ 'assumptions': ['the YAML text layer reproduces the exported structure (checked per run; known exceptions are listed per scalar)',
+                 'node ids are NATS subject tokens without quotes; strings are valid UTF-8; point values are not NaN; edge tombstone points have key '
+                 '""/"0" and value 0, 1 or 2; one node type per node id',
+                 'ImportNodes runs alone on the target instance; its points get times later than the stored ones',
+                 'nodeID references are node points of type nodeID (edge points of that type are not rewritten by ReplaceIDs and are not generated)']}
+
 WIP = "not yet built in this round; the design (DESIGN.md section 6) claims it and the check is being added"
 NOT_CLAIMED = {pid: WIP for pid in ["C%02d" % i for i in range(1, 21)] if pid not in AREAS}
 HOOK_COMMITS = ["6f869d9", "e935e32"]
